@@ -1,2 +1,56 @@
-//! verif::buffer — guarded hooks (cfg rustybuzz_verif).
+//! verif::buffer — guarded hooks (cfg rustybuzz_verif): access to `hb_buffer_t` for the
+//! op-sequence correspondence check.
 #![allow(unused_imports)]
+
+pub use crate::hb::buffer::{
+    glyph_flag, hb_buffer_t, hb_glyph_info_t, GlyphPosition,
+};
+
+/// Builds a glyph info from raw fields.
+pub fn info_new(glyph_id: u32, mask: u32, cluster: u32, var1: u32, var2: u32) -> hb_glyph_info_t {
+    hb_glyph_info_t {
+        glyph_id,
+        mask,
+        cluster,
+        var1,
+        var2,
+    }
+}
+
+/// Raw fields of a glyph info: glyph_id, mask, cluster, var1, var2.
+pub fn info_fields(i: &hb_glyph_info_t) -> [u32; 5] {
+    [i.glyph_id, i.mask, i.cluster, i.var1, i.var2]
+}
+
+/// Appends a glyph info the way `hb_buffer_t::add` does (ensure, write, len += 1).
+pub fn push_info(b: &mut hb_buffer_t, i: hb_glyph_info_t) -> bool {
+    if !b.ensure(b.len + 1) {
+        return false;
+    }
+    let n = b.len;
+    b.info[n] = i;
+    b.len += 1;
+    true
+}
+
+pub fn enter(b: &mut hb_buffer_t) {
+    b.enter()
+}
+
+pub fn leave(b: &mut hb_buffer_t) {
+    b.leave()
+}
+
+pub fn have_output(b: &hb_buffer_t) -> bool {
+    b.have_output
+}
+
+/// attach_chain / attach_type accessors of a position.
+pub fn pos_attach(p: &GlyphPosition) -> (i16, u8) {
+    (p.attach_chain(), p.attach_type())
+}
+
+pub fn pos_set_attach(p: &mut GlyphPosition, chain: i16, ty: u8) {
+    p.set_attach_chain(chain);
+    p.set_attach_type(ty);
+}
